@@ -949,7 +949,8 @@ def judge_history(ctx, g, gm, h, model, orig_labels, coords, W):
         except Exception:
             g_ok = False
         check("C11.history.gmap", g_ok, S("interp_gmap"), "derived map stores the positions interpolated at its markers' physical positions",
-              icls + ("/interval variants" if hasattr(gm, "vrnt_stop") and numpy.any(qstop != qp) else ""),
+              ("freshly built" if not h["log"] else "after in-place edits")
+              + ("/interval variants (stop != start)" if hasattr(gm, "vrnt_stop") and numpy.any(qstop != qp) else "/point variants"),
               witness=dict(WQ, query_stop=qstop, got_chr=getattr(im, "vrnt_chrgrp", None), got_phys=getattr(im, "vrnt_phypos", None),
                            got_gen=getattr(im, "vrnt_genpos", None), expected_gen=qg), coords=coords)
     # ---- distances from physical positions == reference distances of the interpolated positions
